@@ -295,6 +295,11 @@ func blockObjects(H uint64, stateRoot, lastHash []byte) (*lib.BlockResult, *lib.
 		{EventType: "reward", Msg: &lib.Event_Reward{Reward: &lib.EventReward{Amount: 7 * H}}, Height: H, Reference: "begin_block", ChainId: 1, Address: addr(int(H))},
 		{EventType: "reward", Msg: &lib.Event_Reward{Reward: &lib.EventReward{Amount: 9 * H}}, Height: H, Reference: "end_block", ChainId: 2, Address: signer.PublicKey().Address().Bytes()},
 	}
+	if H%2 == 0 {
+		// a byte-identical twin of the first event (the same address rewarded the same amount twice in begin_block): events are
+		// stored content-addressed, so both index positions point at one body and both must come back (sixth-round seed C09)
+		events = append(events, &lib.Event{EventType: "reward", Msg: &lib.Event_Reward{Reward: &lib.EventReward{Amount: 7 * H}}, Height: H, Reference: "begin_block", ChainId: 1, Address: addr(int(H))})
+	}
 	for i := 2; i < n; i++ {
 		events = append(events, &lib.Event{EventType: "reward", Msg: &lib.Event_Reward{Reward: &lib.EventReward{Amount: 11*H + uint64(i)}}, Height: H, Reference: txs[i].TxHash, ChainId: 1, Address: addr(int(H) + i)})
 	}
@@ -730,7 +735,7 @@ func buildReference(sc scenario) (*reference, error) {
 			}
 		}
 		for H := 1; H <= ref.maxV-1; H++ {
-			present := strings.Contains(o.Index[H-1], fmt.Sprintf("(h=%d,txs=%d,ev=%d)", H, txsAt(uint64(H)), txsAt(uint64(H))))
+			present := strings.Contains(o.Index[H-1], fmt.Sprintf("(h=%d,txs=%d,ev=%d)", H, txsAt(uint64(H)), txsAt(uint64(H))+(1-H%2)))
 			if present != (H+1 <= v) {
 				return nil, fmt.Errorf("reference at version %d: block %d present=%v: %s", v, H, present, o.Index[H-1])
 			}
